@@ -33,13 +33,17 @@ type profile struct {
 	invPaths   []string
 	fixedPrio  bool
 	routers    func(rt *rapid.T) []queueSpec
+	// alwaysRetry makes every request's learner ask for a retry on the
+	// largest size class and choose the smallest class first.
+	alwaysRetry bool
+	retryCounts [2]int // range of WorkerTaskRetryCount; zero value = 0..3
 }
 
 func drawConfig(rt *rapid.T, p *profile) worldConfig {
 	cfg := worldConfig{
 		Queues:     p.queues(rt),
 		InvDepth:   rapid.IntRange(p.invDepth[0], p.invDepth[1]).Draw(rt, "invDepth"),
-		RetryCount: rapid.IntRange(0, 3).Draw(rt, "retryCount"),
+		RetryCount: drawRetryCount(rt, p),
 		NActions:   rapid.IntRange(p.actions[0], p.actions[1]).Draw(rt, "nActions"),
 		NWorkers:   rapid.IntRange(p.workers[0], p.workers[1]).Draw(rt, "nWorkers"),
 	}
@@ -47,6 +51,13 @@ func drawConfig(rt *rapid.T, p *profile) worldConfig {
 		cfg.Routers = p.routers(rt)
 	}
 	return cfg
+}
+
+func drawRetryCount(rt *rapid.T, p *profile) int {
+	if p.retryCounts != [2]int{} {
+		return rapid.IntRange(p.retryCounts[0], p.retryCounts[1]).Draw(rt, "retryCount")
+	}
+	return rapid.IntRange(0, 3).Draw(rt, "retryCount")
 }
 
 func defaultQueues(rt *rapid.T) []queueSpec {
@@ -110,6 +121,7 @@ func runCase(t *testing.T, rt *rapid.T, p *profile) *caseResult {
 		w.m.autoTick = rapid.Bool().Draw(rt, "autoTick")
 		w.m.fair = p.fair
 		w.invPaths = p.invPaths
+		w.alwaysRetry = p.alwaysRetry
 		w.fixedPriority = p.fixedPrio
 		w.m.observe()
 		maxSteps := p.maxSteps
@@ -224,6 +236,18 @@ func (w *world) doStep(op string, p *profile) {
 		w.stepKillParked()
 	case "releaseAuth":
 		w.stepReleaseAuth()
+	case "retryFail":
+		// A worker that believes to be executing reports a failure.
+		var cands []*workerSim
+		for _, wk := range w.workers {
+			if wk.inFlight == nil && wk.believes != nil {
+				cands = append(cands, wk)
+			}
+		}
+		if len(cands) > 0 {
+			wk := cands[rapid.IntRange(0, len(cands)-1).Draw(w.rt, "worker")]
+			w.sync(wk, "completed", rapid.Bool().Draw(w.rt, "preferIdle"), rapid.SampledFrom([]string{"exit1", "deadline", "internal"}).Draw(w.rt, "completion"))
+		}
 	case "fairPick":
 		// A worker that believes to be idle asks for work.
 		var cands []*workerSim
